@@ -20,6 +20,8 @@ type appCap struct {
 	shutdown int
 	dropped  bool // harness reference released
 	handedOver bool // the harness' only reference went into a result message
+	kept       *capnp.Client // a capability of the peer the application holds on to until it is shut down
+	keptExport uint32        // ... and the peer's export id behind it
 }
 
 type appCall struct {
@@ -41,6 +43,13 @@ func (a *appCap) Shutdown() {
 	r := a.r
 	a.shutdown++
 	r.s.Logf("app cap %d Shutdown (#%d)", a.id, a.shutdown)
+	if k := a.kept; k != nil {
+		// a Shutdown hook that lets go of a capability imported over the same connection: it runs
+		// inside the Conn's own teardown, which therefore must not hold any Conn lock around it
+		a.kept = nil
+		r.s.Probe("shutdown_hook_releases_an_import")
+		k.Release()
+	}
 	if a.shutdown > 1 {
 		r.s.Fail("shutdown_twice", "rpc.go:(*Conn).shutdown", fmt.Sprintf("application capability %d was released twice (Shutdown ran %d times)", a.id, a.shutdown))
 		return
@@ -106,6 +115,14 @@ func (r *run) appImpl(a *appCap, ctx context.Context, call *server.Call) error {
 				ac.gotCap = fmt.Sprintf("app:%v", id)
 			} else {
 				ac.gotCap = "import"
+				if a.id == 0 && a.handedOver && a.kept == nil && token%3 == 0 && !r.hostile && r.peer != nil {
+					for _, qid := range r.peer.order {
+						if q := r.peer.myQ[qid]; q.token == token && q.fwdFor == nil && len(q.paramCaps) > 0 && q.paramCaps[0].kind == "senderHosted" {
+							a.kept, a.keptExport = param.AddRef(), q.paramCaps[0].id
+							s.Probe("bootstrap_capability_keeps_an_import")
+						}
+					}
+				}
 			}
 		}
 	}
